@@ -432,6 +432,7 @@ def long_columns(rng, T, cases, ncols, rot, max_offset=None):
             lo = o + n
             if lo + len(c2["r"]) <= hi:
                 o2 = rng.choice([lo, lo + 1, hi - len(c2["r"]), rng.randrange(lo, hi - len(c2["r"]) + 1)])
+                o2 = min(o2, hi - len(c2["r"]))  # lo + 1 may leave no room for the whole case
                 col.append((o2, c2))
         cols.append(col)
     return cols
